@@ -615,10 +615,55 @@ Theorem block_reference_key dir f lr url title lt ils st :
   (do st' <- add_node st (KRef (from_rel_link_url url dir) (inlines_plain_text ils) lt); Ok (set_lines_range st' lr)).
 Proof. intros H. cbn. rewrite H. reflexivity. Qed.
 
-(* ... and an inline link's key is the url (as the reader left it) without the directory *)
-Theorem inline_key_no_directory url title lt ils :
+(* ... and so is the key of an inline link: the graph holds the url resolved against the directory of the
+   linking note (Arena.to_ginline: `Key::from_rel_link_url`), ref_keys reads it as it is (`Key::name`).
+   In the pinned tree the graph held the url as typed (finding F-C05-inline-dir / F9, repaired). *)
+Theorem inline_key_is_url url title lt ils :
   ref_keys [Link url title lt ils] = [key_name url].
 Proof. reflexivity. Qed.
+
+(* the urls ref_keys looks at: every link outside link texts, through emphasis and image descriptions *)
+Fixpoint inline_link_urls (i : inline) : list string :=
+  match i with
+  | Emph l | Strong l | Strike l => flat_map inline_link_urls l
+  | Link url _ _ _ => [url]
+  | Image _ _ l => flat_map inline_link_urls l
+  | _ => []
+  end.
+
+Definition resolved_url (dir url : string) : string := if is_ref_url url then from_rel_link_url url dir else url.
+
+Lemma flat_map_map_local {A B C} (f : A -> B) (g : B -> list C) l : flat_map g (map f l) = flat_map (fun x => g (f x)) l.
+Proof. induction l as [|x l IH]; cbn [map flat_map]; [reflexivity | now rewrite IH]. Qed.
+Lemma map_flat_map_local {A B C} (f : A -> list B) (g : B -> C) l : map g (flat_map f l) = flat_map (fun x => map g (f x)) l.
+Proof. induction l as [|x l IH]; cbn [map flat_map]; [reflexivity | now rewrite map_app, IH]. Qed.
+Lemma flat_map_ext_local {A B} (f g : A -> list B) l : Forall (fun x => f x = g x) l -> flat_map f l = flat_map g l.
+Proof. induction 1 as [|x l H _ IH]; cbn [flat_map]; [reflexivity | now rewrite H, IH]. Qed.
+
+Lemma inline_keys_resolved_one dir : forall i,
+  inline_ref_keys (to_ginline dir i) = map (resolved_url dir) (inline_link_urls i).
+Proof.
+  apply (inline_ind' (fun i => inline_ref_keys (to_ginline dir i) = map (resolved_url dir) (inline_link_urls i)));
+    intros; try reflexivity.
+  - cbn [to_ginline inline_ref_keys inline_link_urls]. rewrite flat_map_map_local, map_flat_map_local.
+    now apply flat_map_ext_local.
+  - cbn [to_ginline inline_ref_keys inline_link_urls]. rewrite flat_map_map_local, map_flat_map_local.
+    now apply flat_map_ext_local.
+  - cbn [to_ginline inline_ref_keys inline_link_urls]. rewrite flat_map_map_local, map_flat_map_local.
+    now apply flat_map_ext_local.
+  - cbn [to_ginline inline_ref_keys inline_link_urls]. rewrite flat_map_map_local, map_flat_map_local.
+    now apply flat_map_ext_local.
+Qed.
+
+(* C05_inline_resolution: the keys a line of a note in directory [dir] is indexed under are the urls of its
+   links resolved against [dir] - exactly what the property says ("relative to the note's directory, `.md`
+   ignored"); an external url is kept as text (it is no key of the library) *)
+Theorem inline_keys_resolved dir l :
+  ref_keys (to_ginlines dir l) = map (resolved_url dir) (flat_map inline_link_urls l).
+Proof.
+  unfold ref_keys, to_ginlines. rewrite flat_map_map_local, map_flat_map_local.
+  apply flat_map_ext_local, Forall_forall. intros i _. apply inline_keys_resolved_one.
+Qed.
 
 (* ---------- refutations of the as-found code ------------------------------------------------------------------ *)
 
@@ -659,8 +704,10 @@ Proof.
   - split; [do 3 eexists; split; reflexivity|]. split; eexists; split; vm_compute; reflexivity.
 Qed.
 
-(* F9: from note d/n the inline link `[x](m)` is recorded under m, while the link resolves to d/m *)
-Theorem inline_resolution_refuted :
-  exists dir url, ref_keys [Link url "" Regular [Str "x"]] = ["m"] /\
-                  from_rel_link_url url dir = "d/m" /\ dir = key_parent "d/n".
-Proof. exists "d", "m". repeat split; vm_compute; reflexivity. Qed.
+(* F9 (repaired): from note d/n the inline link `[x](m)` is recorded under d/m, the note it resolves to; from the
+   root under m (in the pinned tree: under m from everywhere) *)
+Theorem inline_resolution_repaired :
+  ref_keys (to_ginlines (key_parent "d/n") [Str "see "; Link "m" "" Regular [Str "x"]]) = ["d/m"] /\
+  ref_keys (to_ginlines (key_parent "n") [Str "see "; Link "m" "" Regular [Str "x"]]) = ["m"] /\
+  ref_keys (to_ginlines (key_parent "d/n") [Link "../m.md" "" Regular [Str "x"]; Emph [Link "./m" "" WikiLink []]]) = ["m"; "d/m"].
+Proof. repeat split; vm_compute; reflexivity. Qed.
